@@ -367,7 +367,24 @@ def explore(mod, tier, seed, nproc=None, cap_s=None, log=print):
                 a = run_case(mod, st.checker, json.loads(json.dumps(first_case, default=_js)))
                 b = run_case(mod, st.checker, json.loads(json.dumps(first_case, default=_js)))
                 if (a.evals, a.clauses, a.nontriv, a.states, len(a.viol)) != (b.evals, b.clauses, b.nontriv, b.states, len(b.viol)):
-                    raise RuntimeError('harness nondeterminism: two executions of the same case differ in stratum %s' % st.name)
+                    # repeated in ONE process the case differs.  From the same initial state (two fresh processes) it must not: if it does,
+                    # the harness is nondeterministic; if it does not, the library keeps state between calls, which the clauses judge
+                    fc = json.loads(json.dumps(first_case, default=_js))
+                    outs = []
+                    for _ in range(2):
+                        p1 = ctx.Pool(1, initializer=_init_worker, initargs=(mod.__name__,), maxtasksperchild=1)
+                        try:
+                            rr = Res()
+                            rr.merge_packed(p1.apply(_run_chunk, ((st.checker, [fc]),)))
+                            outs.append((rr.evals, rr.clauses, sorted(rr.nontriv), sorted(rr.states), len(rr.viol)))
+                        finally:
+                            p1.terminate()
+                            p1.join()
+                    if outs[0] != outs[1]:
+                        raise RuntimeError('harness nondeterminism: two executions of the same case differ in stratum %s' % st.name)
+                    log('  note: a case of stratum %s gives different observations when repeated in one process but not from a fresh process: '
+                        'the library keeps state between calls' % st.name)
+                    total.note('library_state_between_calls:' + st.name)
                 determinism_checked.append(st.name)
             if st.size is not None and st.size != n:
                 raise RuntimeError(
